@@ -50,17 +50,9 @@ Proof.
     rewrite S. field; lra.
 Qed.
 Lemma tie_e_sin x vx : first_order1 sin (cos x) x vx (e_sin (OO:=ROps) x vx).
-Proof.
-  unfold first_order1. split; [ apply is_derive_sin | ].
-  autounfold with gen; ops_R. pose proof (sin2_cos2 x) as H; unfold Rsqr in H.
-  apply f_equal2; [reflexivity|]. apply f_equal2; [|reflexivity]. replace (1 - sin x * sin x) with (cos x * cos x) by lra. ring.
-Qed.
+Proof. unfold first_order1. split; [ apply is_derive_sin | tie ]. Qed.
 Lemma tie_e_cos x vx : first_order1 cos (- sin x) x vx (e_cos (OO:=ROps) x vx).
-Proof.
-  unfold first_order1. split; [ apply is_derive_cos | ].
-  autounfold with gen; ops_R. pose proof (sin2_cos2 x) as H; unfold Rsqr in H.
-  apply f_equal2; [reflexivity|]. apply f_equal2; [|reflexivity]. replace (1 - cos x * cos x) with (sin x * sin x) by lra. ring.
-Qed.
+Proof. unfold first_order1. split; [ apply is_derive_cos | tie ]. Qed.
 Lemma tie_e_acos x vx : -1 < x < 1 -> first_order1 acos (-1 / sqrt (1 - x * x)) x vx (e_acos (OO:=ROps) x vx).
 Proof.
   intros H. unfold first_order1. split.
@@ -81,11 +73,7 @@ Proof.
   apply f_equal2; [reflexivity|]. apply f_equal2; [|reflexivity]. replace (1 + sinh x * sinh x) with (cosh x * cosh x) by lra. ring.
 Qed.
 Lemma tie_e_cosh x vx : first_order1 cosh (sinh x) x vx (e_cosh (OO:=ROps) x vx).
-Proof.
-  unfold first_order1. split; [ apply is_derive_Reals, derivable_pt_lim_cosh | ].
-  autounfold with gen; ops_R. pose proof (cosh2_minus_sinh2 x) as H.
-  apply f_equal2; [reflexivity|]. apply f_equal2; [|reflexivity]. replace (cosh x * cosh x - 1) with (sinh x * sinh x) by lra. ring.
-Qed.
+Proof. unfold first_order1. split; [ apply is_derive_Reals, derivable_pt_lim_cosh | tie ]. Qed.
 Lemma tie_e_atanh x vx : -1 < x < 1 -> first_order1 Ratanh (/ (1 - x * x)) x vx (e_atanh (OO:=ROps) x vx).
 Proof.
   intros H. unfold first_order1. split.
